@@ -147,3 +147,34 @@ func VerifCompareFirstRegion() {
 		}
 	}
 }
+
+// VerifCompareTestVectors: the repository's own TestCompare pairs (a > b), run concretely
+// through the engine and — in the native validation of this job — through the compiled code;
+// both must produce the same observations. This is the translator's conformance check on the
+// inputs the maintainers chose, and it ties the oracle to them as well.
+func VerifCompareTestVectors() {
+	pairs := [][2]string{
+		{"table,,1234567890", ".META.,,1234567890"},
+		{"tabl2,,1234567890", "tabl1,,1234567890"},
+		{"table,,1234567890", "tabl,,1234567890"},
+		{"table,foo,1234567890", "table,,1234567890"},
+		{"table,foo,1234567890", "table,bar,1234567890"},
+		{"table,fool,1234567890", "table,foo,1234567890"},
+		{"table,a,,c,1234567890", "table,a,,b,1234567890"},
+		{"table,foo,1234567891", "table,foo,1234567890"},
+		{"table,foo,1234567890", "table,foo,123456789"},
+		{"table,,1234567891", "table,,1234567890"},
+		{"table,foo,:", "table,foo,9999999999"},
+		{"table,8,\001,:", "table,8,1339667458224"},
+	}
+	for _, p := range pairs {
+		a, b := []byte(p[0]), []byte(p[1])
+		got := Compare(a, b)
+		verifObserveInt("cmp", got)
+		verifAssert(got > 0 && Compare(b, a) < 0 && Compare(a, a) == 0, "the repository's test vectors hold")
+		ta, ka, ia, _ := vSplit(a)
+		tb, kb, ib, _ := vSplit(b)
+		verifAssert(vOracle(ta, ka, ia, tb, kb, ib) == 1, "the oracle agrees with the repository's test vectors")
+	}
+	verifReach("vectors")
+}
